@@ -974,3 +974,44 @@ def check_C13(inp):
 
 
 CHECKS = {k[6:]: v for k, v in list(globals().items()) if k.startswith("check_")}
+
+
+def check_C19seed(inp):
+    """outcomes (results, error classes and messages, extraction order) are the same under
+    different hash seeds: each seed runs in its own interpreter"""
+    import subprocess
+
+    prog = r'''
+import json, sys
+sys.path.insert(0, %r)
+import cvss
+from cvss import parser
+out = []
+for ver, s in json.loads(sys.argv[1]):
+    C = {"2": cvss.CVSS2, "3": cvss.CVSS3, "4": cvss.CVSS4}[ver]
+    try:
+        c = C(s)
+        out.append(["ok", c.scores(), c.clean_vector(), list(c.as_json(minimal=True).items())])
+    except Exception as e:
+        out.append([type(e).__name__, str(e)])
+out.append([o.vector for o in parser.parse_cvss_from_text(sys.argv[2])])
+print(json.dumps(out))
+''' % REPO
+    ref = None
+    for seed in ("0", "1", "2", "3"):
+        env = dict(os.environ)
+        env["PYTHONHASHSEED"] = seed
+        p = subprocess.run([sys.executable, "-c", prog, json.dumps(inp["strings"]), inp.get("text", "")],
+                           capture_output=True, text=True, env=env, timeout=120)
+        if p.returncode != 0:
+            return "probe failed under PYTHONHASHSEED=%s: %s" % (seed, p.stderr[-300:])
+        got = json.loads(p.stdout)
+        if ref is None:
+            ref = got
+        elif got != ref:
+            k = [i for i in range(len(ref)) if got[i] != ref[i]][0]
+            return "PYTHONHASHSEED=%s changes outcome %d: %r vs %r" % (seed, k, got[k], ref[k])
+    return None
+
+
+CHECKS = {k[6:]: v for k, v in list(globals().items()) if k.startswith("check_")}
